@@ -293,3 +293,48 @@ pub fn opt_canary() {
     std::mem::forget(m);
     assert!(r.unwrap() < 40);
 }
+
+// ---------------------------------------------------------------------------------------------
+// The contract of fuzzy_match_optimal as an executable stub (modular rule: the dispatchers in
+// lib.rs are checked against the callee's CONTRACT, the callee against its body by the
+// obligations above).  Precondition (asserted): what the obligations above assume, i.e. the
+// prefilter's postcondition.  Postcondition: Some <=> the needle is a normalised subsequence of
+// haystack[start..end]; on Some, one valid witness is appended and the score is the fzf scheme on it
+// (the forward-greedy alignment is returned: one behaviour the contract allows; the callers under
+// check return the result unchanged).
+// ---------------------------------------------------------------------------------------------
+pub fn opt_contract<const INDICES: bool, H: crate::chars::Char + PartialEq<N>, N: crate::chars::Char>(
+    m: &mut crate::Matcher,
+    haystack: &[H],
+    needle: &[N],
+    start: usize,
+    greedy_end: usize,
+    end: usize,
+    indices: &mut Vec<u32>,
+) -> Option<u16> {
+    assert!(needle.len() >= 2 && start < greedy_end && greedy_end <= end && end <= haystack.len(), "precondition of fuzzy_match_optimal: window from the prefilter");
+    assert!(matches(haystack[start], needle[0], &m.config), "precondition of fuzzy_match_optimal: the window starts at an occurrence of the first needle character");
+    let kind = if m.config.bonus_boundary_white == 10 { Bonuses::Default } else { Bonuses::Paths };
+    let mut pos = [0u32; 8];
+    let mut j = 0;
+    let mut i = start;
+    while i < end {
+        if j < needle.len() && matches(haystack[i], needle[j], &m.config) {
+            pos[j] = i as u32;
+            j += 1;
+        }
+        i += 1;
+    }
+    if j < needle.len() {
+        return None;
+    }
+    let got = &pos[..needle.len()];
+    if INDICES {
+        let mut k = 0;
+        while k < got.len() {
+            indices.push(got[k]);
+            k += 1;
+        }
+    }
+    Some(spec_score(haystack, &m.config, kind, got) as u16)
+}
